@@ -1,6 +1,7 @@
 package main
 
 import (
+	"errors"
 	"bytes"
 	"encoding/base64"
 	"encoding/json"
@@ -74,6 +75,7 @@ type trCase struct {
 	Plan     []trStep             `json:"plan"`
 	Format   string               `json:"format"`
 	Vars     map[string]string    `json:"vars"`
+	SinkFails bool                `json:"sink_fails"` // the first write to the runner's output fails
 }
 
 type trResult struct {
@@ -111,13 +113,18 @@ var trSeq int64
 func init() { engines["taskrun"] = taskrunEngine }
 
 type lockedBuf struct {
-	mu sync.Mutex
-	b  bytes.Buffer
+	mu       sync.Mutex
+	b        bytes.Buffer
+	failOnce bool // the first Write fails (a terminal that went away for a moment)
 }
 
 func (l *lockedBuf) Write(p []byte) (int, error) {
 	l.mu.Lock()
 	defer l.mu.Unlock()
+	if l.failOnce {
+		l.failOnce = false
+		return 0, errors.New("write failed")
+	}
 	return l.b.Write(p)
 }
 
@@ -183,7 +190,7 @@ func taskrunEngine(raw json.RawMessage) (res interface{}, err error) {
 		obs.SetupErr = e.Error()
 		return obs, nil
 	}
-	out := &lockedBuf{}
+	out := &lockedBuf{failOnce: c.SinkFails}
 	tr.Stdout = out
 	tr.Stderr = out
 	if c.Format != "" {
